@@ -152,6 +152,52 @@ def classify(expr: str) -> list:
     return ['ops=' + ' '.join(ops), 'operands=' + ' '.join(sorted(kinds))]
 
 
+_EMIT = True
+
+
+def emitted_literals(batch, ns, _unused):
+    """Third clause of C17: the literal Py2Cpp emits for `F.Xi.value` must decode to the value CPython computes.
+    Only members whose value Python can compute to int/float/str get an accessor function; a separate session is used."""
+    import re
+    from mc.tranp.session import Session
+    from rogw.tranp.errors import Errors
+    members, funcs = [], []
+    for i, e in enumerate(batch):
+        py = py_eval(e, ns)
+        if py[0] != 'ok' or type(py[1]) not in (int, float, str):
+            continue
+        members.append(i)
+        funcs.append(f'def v{i}() -> {type(py[1]).__name__}:\n\treturn F.X{i}.value\n')
+    if not members:
+        return {}
+    out = {}
+    # one accessor per module keeps a refusal (application error) local to its member
+    src_head = PRELUDE_PY + F_HEAD + ''.join(f'\tX{i} = {batch[i]}\n' for i in members) + '\n'
+    try:
+        s = Session({'__main__': src_head + '\n'.join(funcs)})
+        text = s.transpile('__main__')
+    except Errors.Error:
+        return {}     # some member is refused: covered by the evaluator clause, not judged here
+    except Exception:  # noqa
+        return {}
+    for i in members:
+        m = re.search(r'\b\w+ v%d\(\) \{\n\treturn (.*);\n\}' % i, text)
+        if not m:
+            continue
+        lit = m.group(1)
+        try:
+            if lit.startswith('"') and lit.endswith('"'):
+                val = lit[1:-1]
+            elif re.fullmatch(r'-?\d+', lit):
+                val = int(lit)
+            else:
+                val = float(lit)
+            out[i] = ('ok', val if not isinstance(val, str) else "'" + val + "'") if not isinstance(val, str) else ('ok', '"' + val + '"')
+        except ValueError:
+            out[i] = ('ok', ('undecodable-literal', lit))
+    return out
+
+
 def eval_batch(batch):
     """batch: list of expressions -> list of (expr, py_outcome, tranp_outcome)."""
     import rogw.tranp.syntax.node.definition as defs
@@ -173,8 +219,11 @@ def eval_batch(batch):
             return [(batch[0], py_eval(batch[0], ns), ('load-failed', kind))]
         mid = len(batch) // 2
         return eval_batch(batch[:mid]) + eval_batch(batch[mid:])
+    emitted = emitted_literals(batch, ns, s if False else None) if _EMIT else {}
     for i, e in enumerate(batch):
         py = py_eval(e, ns)
+        if i in emitted:
+            out.append((e + '  [emitted .value]', py, emitted[i]))
         try:
             got = ('ok', ev.exec(values[f'X{i}']))
         except Errors.Error as ex:
